@@ -55,6 +55,53 @@ def gen_cases(rng, tier):
             h = pre + ['d30', 't60', 'r30', 't2', 'r30', 't5', 'u30', 't60', 'r30', 't5'] + post
             cases.append({'id': 'c14-form-%d-%d' % (fi, layered), 'cfg': cfg, 'hist': h, 'sub': 'ksim', 'form': True,
                           'tags': {'form': f, 'layered': layered}})
+    # chords (v1 and v2) as the key-producing action: a participant shared by two chords, one of them disabled on the layer in use
+    # (held layer or layer-switch target), held until the chord has produced its key, then every participant repeated
+    ci = 0
+    import itertools
+    combos = [(True, d1, d2, use, first) for d1, d2, use, first in
+              itertools.product(['', 'other', 'base'], ['', 'other', 'base'], ['base', 'other-held', 'other-switched'], [True, False])]
+    combos += [(False, '', '', use, first) for use in ['base', 'other-held', 'other-switched'] for first in (True, False)]
+    for v2, dis1, dis2, use, first in combos:          # exhaustive: 54 chords-v2 situations + 6 chords-v1
+        lay = 'base' if use == 'base' else 'other'
+        if v2:
+            cfg = ('(defcfg concurrent-tap-hold yes)\n(defsrc a s d j k)\n(deflayer base a s d (layer-while-held other) (layer-switch other))\n'
+                   '(deflayer other a s d _ (layer-switch base))\n(defchordsv2 (a s) x 50 %s (%s) (a d) y 50 %s (%s))'
+                   % (rng.choice(['all-released', 'first-release']), dis1, rng.choice(['all-released', 'first-release']), dis2))
+            disabled = (dis1 if first else dis2) == lay
+        else:
+            cfg = ('(defsrc a s d j k)\n(deflayer base (chord g a) (chord g s) (chord g d) (layer-while-held other) (layer-switch other))\n'
+                   '(deflayer other _ _ _ _ (layer-switch base))\n(defchords g 50 (a) a (s) s (d) d (a s) x (a d) y)')
+            disabled = False
+        pre = {'base': ['t6'], 'other-held': ['d36', 't6'], 'other-switched': ['d37', 't3', 'u37', 't3']}[use]
+        k2 = 31 if first else 32
+        h = pre + ['d30', 'd%d' % k2, 't54', 'r30', 't2', 'r%d' % k2, 't5', 'u30', 'u%d' % k2, 't60'] + (['u36'] if use == 'other-held' else [])
+        cases.append({'id': 'c14-chord-%d' % ci, 'cfg': cfg, 'hist': h, 'sub': 'ksim', 'form': True,
+                      'tags': {'form': 'chords-v2' if v2 else 'chords-v1', 'layer': use, 'disabled_here': disabled}})
+        ci += 1
+    # sequences: while a sequence is collecting, the hidden modes keep the typed keys away from the OS, so their repeats must not
+    # be forwarded either; in the visible mode the key is down and its repeat goes through
+    for n in range(24 if tier == 'quick' else 300):
+        mode = rng.choice(['hidden-suppressed', 'hidden-delay-type', 'visible-backspaced'])
+        T = rng.choice([40, 200])
+        cfg = ('(defcfg sequence-input-mode %s sequence-timeout %d)\n(defsrc a s d f)\n(deflayer l0 sldr s d f)\n(defvirtualkeys v0 x)\n(defseq v0 (s d f))'
+               % (mode, T))
+        h = ['t3', 'd30', 't2', 'u30', 't2', 'd31', 't%d' % rng.choice([2, 8]), 'r31', 't1', 'r31', 't2']
+        if rng.random() < 0.5:
+            h += ['u31', 't2']
+        second = rng.choice([32, 32, 33])          # d continues the sequence, f does not (the sequence is cancelled there)
+        h += ['d%d' % second, 't3', 'r%d' % second, 't2', 'r31', 't1']
+        end_at = sum(int(t[1:]) for t in h[:h.index('d%d' % second)] if t[0] == 't') if second == 33 else None
+        if end_at is None:
+            if rng.random() < 0.5:
+                end_at = sum(int(t[1:]) for t in h if t[0] == 't')
+                h += ['d33', 't2', 'r33', 'u33']
+            else:
+                end_at = sum(int(t[1:]) for t in h[:h.index('d32')] if t[0] == 't') + T
+                h += ['t%d' % (T + 5), 'r32']
+        h += ['t3', 'r%d' % second, 'u%d' % second, 'u31', 't50']
+        cases.append({'id': 'c14-seq-%d' % n, 'cfg': cfg, 'hist': h, 'sub': 'ksim', 'seq_end': end_at, 'seq_hidden': mode != 'visible-backspaced',
+                      'tags': {'form': 'sequence', 'mode': mode}})
     return cases
 
 
@@ -84,7 +131,11 @@ def oracle(case, it):
                 if not mm:
                     return 'repeat produced a non-repeat event %s' % evs[0]
                 if int(mm.group(1)) not in down:
-                    return 'repeat emitted for key %s which is up at the OS (down: %s) at tick %s' % (mm.group(1), down, m.group(1))
+                    tag = ''
+                    if case.get('seq_hidden') and case.get('seq_end') is not None and int(m.group(1)) > case['seq_end'] + 1:
+                        # the key was typed into a hidden sequence (never pressed at the OS) and is still held after the sequence ended
+                        tag = ' [hidden-sequence-key-held-past-end]'
+                    return 'repeat emitted for key %s which is up at the OS (down: %s) at tick %s%s' % (mm.group(1), down, m.group(1), tag)
             elif case.get('form') and down and int(m.group(1)) >= 60 and int(m.group(1)) < 70:
                 return 'held key produced %s but its repeat at tick %s was not forwarded' % (down, m.group(1))
     return None
@@ -95,7 +146,7 @@ SPEC = {
     'oracle': oracle,
     'rule': 'random configs over every key-producing action form (depth <= 3, 1-3 layers, overrides, chords v1) with OS repeats injected at '
             '~45% of the steps for held and for arbitrary keys; plus each action form held alone (on the base layer and on a held layer) '
-            'until it has produced output, then repeated; non-trivial = some repeat was forwarded',
+            'until it has produced output, then repeated; chords v1/v2 with a participant shared by two chords (one disabled on the layer in use); repeats during sequences in all three input modes; non-trivial = some repeat was forwarded',
     'explanation': 'theorems: at most one repeat and only for a key in the handler\'s held set; an unmod-released modifier is never '
                    'repeated; the last-listed key of a chord is preferred.  The python oracle checks every emitted repeat against the OS-down '
                    'set reconstructed from the output, and completeness for the single-key forms',
